@@ -30,7 +30,6 @@ MODELLED_NOT_VERIFIED = [
     "(recorded from the implementation; if not recordable every maximal pair is tried); the oracle checks maximality independently",
     "C07: RNG draws of randomly_reorient/randomly_rotate are recorded from the implementation (scripted rng) and replayed into the model",
     "C07: floating point is not modelled; all generated lengths are dyadic so that every sum, difference and halving is exact",
-    "C07: LenWF (non-zero denominators) and distinct node ids are hypotheses of the theorems, not derived from parseTree in Props/C07.lean",
 ]
 EXPLANATION = ("Theorems (Props/C07.lean, about the definitions drv_c07 runs; Keeps t r = same leaf ids, same total length, same length of "
                "every leaf-to-leaf path, exact rationals, None = 0). Proved for every tree with distinct node ids, a seed with >= 2 children and "
@@ -53,10 +52,14 @@ EXPLANATION = ("Theorems (Props/C07.lean, about the definitions drv_c07 runs; Ke
                "first root child spans exactly the leaves of the node with id og of the original tree). Clause (e): flag theorems for "
                "reseed, outgroup, reorient (content) and the hard ops (definitional). Structure: invert_is_chain, reseed_root_is_target, "
                "reseed_at_root_is_target, reseed_root_shape. Unrooted splits: reseed_keeps_usplits (whole chain + basal collapse + suppression, "
-               "every flag setting), reroot_at_node_keeps_usplits, inversion_step_keeps_unrooted_splits, for trees whose leaves carry distinct "
-               "taxa. Tie A: gen_edge_len_bridge, gen_plen0_bridge, gen_order_bridge, gen_walk_bridge, gen_split_lens_bridge, "
+               "every flag setting), reroot_at_node_keeps_usplits, inversion_step_keeps_unrooted_splits, to_outgroup_keeps_usplits (chain + move to "
+               "the front + sister collapse + suppression), reroot_at_edge_keeps_usplits (the inserted node adds no split: splitEdge_H), "
+               "reroot_at_midpoint_keeps_usplits (both branches), reorient_keeps_usplits, for trees whose leaves carry distinct "
+               "taxa; ladderize_keeps_usplits / reorder_keeps_usplits / rotate_keeps_usplits (no hypothesis at all). Tie A: gen_edge_len_bridge, gen_plen0_bridge, gen_order_bridge, gen_walk_bridge, gen_split_lens_bridge, "
                "gen_midpoint_flags_bridge, gen_reroot_edge_bridge - the kernels regenerated from the current source equal the model's. "
-               "Not proved, oracle only: split sets of outgroup/edge/midpoint/permutation operations, leaf targets, unary seeds.")
+               "parseTree_lenWF / parseTree_ids_nodup: every tree the protocol parser returns has well-formed fractions and distinct node ids, so the "
+               "standing hypotheses hold for every driver input (reseed_invariant_parsed, midpoint_equidistant_parsed instantiate them). "
+               "Not proved, oracle only: leaf targets, unary seeds (and split sets of taxon-less / duplicate-taxon leaves, outside GoodL).")
 
 SOFT = {"reseed", "outgroup", "reorient", "rotate", "ladderize", "reorder", "suppress"}
 HARD = {"rerootnode", "rerootedge", "midpoint"}
